@@ -524,6 +524,24 @@ def equal_variant_pairs(r, cls, pool, limit):
             out.append((v, w))
     return out[:limit]
 
+# ---------------------------------------------------------------- digits of other scripts (str.isdigit / \d / int() accept them)
+_SCRIPTS = (0x0660, 0xFF10, 0x0966)      # Arabic-Indic, fullwidth, Devanagari
+
+
+def digit_script_variants(s):
+    """spellings of s with some ASCII digits replaced by the same digit of another script; Python's int(), str.isdigit()
+    and the regex class \\d read them as the same numbers, so a class that accepts them must treat them consistently"""
+    pos = [i for i, c in enumerate(s) if "0" <= c <= "9"]
+    if not pos:
+        return []
+    out = []
+    for base in _SCRIPTS:
+        tr = lambda c: chr(base + ord(c) - 48)
+        out.append("".join(tr(c) if "0" <= c <= "9" else c for c in s))
+        for i in (pos[0], pos[-1]):
+            out.append(s[:i] + tr(s[i]) + s[i + 1:])
+    return list(dict.fromkeys(out))
+
 
 # ---------------------------------------------------------------- the two sub-domains C01 excludes from the order
 def conan_mixed(x, y):
